@@ -43,7 +43,7 @@ theorem clog10_min (S : Nat) : clog10 S = 0 ∨ 10 ^ (clog10 S - 1) < S + 1 := b
   unfold clog10
   exact clog10_go_min S (S + 1) 0 1 rfl (Or.inl rfl)
 
-theorem digits_unique (S a b : Nat) (ha : 10 ^ (a - 1) ≤ S ∧ S < 10 ^ a) (hb : 10 ^ (b - 1) ≤ S ∧ S < 10 ^ b) (ha1 : 1 ≤ a) (hb1 : 1 ≤ b) : a = b := by
+theorem decDigits_unique (S a b : Nat) (ha : 10 ^ (a - 1) ≤ S ∧ S < 10 ^ a) (hb : 10 ^ (b - 1) ≤ S ∧ S < 10 ^ b) (ha1 : 1 ≤ a) (hb1 : 1 ≤ b) : a = b := by
   rcases Nat.lt_trichotomy a b with h | h | h
   · have : 10 ^ a ≤ 10 ^ (b - 1) := Nat.pow_le_pow_right (by omega) (by omega)
     omega
@@ -59,13 +59,13 @@ theorem clog10_eq_decDigits (S : Nat) (h : 1 ≤ S) : clog10 S = decDigits S := 
     rcases Nat.eq_zero_or_pos (clog10 S) with h0 | h0
     · rw [h0] at hs; simp at hs; omega
     · exact h0
-  apply digits_unique S _ _ ⟨by rcases hm with hm | hm <;> omega, by omega⟩ (decDigits_spec S h) h1 (decDigits_pos S)
+  apply decDigits_unique S _ _ ⟨by rcases hm with hm | hm <;> omega, by omega⟩ (decDigits_spec S h) h1 (decDigits_pos S)
 
 theorem slackLog10By_eq_digs (n S : Nat) : slackLog10By n S = digs S 0 n := by
   simp [slackLog10By, digs, List.range_eq_range']
 
 /-- every value the digit variables of positions `j … j+len-1` can take is at most `10^(j+len) − 10^j` -/
-theorem digs_bound (S len j t : Nat) (h : RepsOH (digs S j len) t) : t + 10 ^ j ≤ 10 ^ (j + len) := by
+theorem log10_digs_bound (S len j t : Nat) (h : RepsOH (digs S j len) t) : t + 10 ^ j ≤ 10 ^ (j + len) := by
   induction len generalizing j t with
   | zero =>
     simp only [digs, List.range'_zero, List.map_nil, RepsOH] at h
@@ -95,7 +95,7 @@ theorem digs_bound (S len j t : Nat) (h : RepsOH (digs S j len) t) : t + 10 ^ j 
 /-- with `n` digit variables every reachable slack value is `< 10^n` -/
 theorem slackLog10By_lt (n S t : Nat) (h : RepsOH (slackLog10By n S) t) : t < 10 ^ n := by
   rw [slackLog10By_eq_digs] at h
-  have := digs_bound S n 0 t h
+  have := log10_digs_bound S n 0 t h
   simp at this; omega
 
 theorem slackLog10Dqm_eq (fl : Nat → Nat) (S : Nat) (h : 1 ≤ S) (hr : dqmNumDigits = .decimalDigits) : slackLog10Dqm fl S = slackLog10 S := by
